@@ -53,8 +53,11 @@ func (c *APIKey) Apply(_ context.Context, req *http.Request) error {
 func (c *APIKey) Hash() []byte {
 	hash := sha256.New()
 
+	// the separators ensure that different settings cannot result in the same sequence of bytes
 	hash.Write(stringx.ToBytes(c.In))
+	hash.Write([]byte{0})
 	hash.Write(stringx.ToBytes(c.Name))
+	hash.Write([]byte{0})
 	hash.Write(stringx.ToBytes(c.Value))
 
 	return hash.Sum(nil)
